@@ -196,8 +196,9 @@ def market_roundtrip(part, case, ta, tb, sp, d0, d1, amt0, amt1, expect):
         broker.add_market(market)
         market.set_market_status(UniswapMarketStatus(None, pd.Series(
             data=[0, 0, 10**20, 0, Decimal(1)], index=["inAmount0", "inAmount1", "currentLiquidity", "closeTick", "price"])), None)
-        broker.set_balance(t0, amt0)
-        broker.set_balance(t1, amt1)
+        # the wallet holds MORE than is offered: the offer, not the balance, is the limit (an offer of 0 means 0)
+        broker.set_balance(t0, amt0 + 7)
+        broker.set_balance(t1, amt1 + 7)
         base_amt, quote_amt = (amt1, amt0) if q0 else (amt0, amt1)
         try:
             pos, base_used, quote_used, liq = market.add_liquidity_by_tick(ta, tb, base_amt, quote_amt, sqrt_price_x96=sp,
@@ -251,6 +252,69 @@ def moving_bar_roundtrip(part, ta, tb):
                                {"used": (base_used, quote_used, liq), "got_back": (base_get, quote_get)})
 
 
+def argument_forms(part, ta, tb):
+    """The same deposit through the market's other argument forms: price given as an explicit `tick=` that is NOT a multiple of the spacing (with the
+    default trim_tick), range given as prices (add_liquidity), offers of exactly 0 for either token while the wallet holds plenty. Expected amounts
+    come from the independent TickMath port and V3CoreLib.new_position, which the grid above has just tied to the closed forms."""
+    import pandas as pd
+    from demeter import Broker, MarketInfo, TokenInfo
+    from demeter.uniswap import UniLpMarket, UniV3Pool, UniswapMarketStatus
+    from demeter.uniswap.core import V3CoreLib
+
+    if not (-800000 < ta < tb < 800000) or tb - ta < 40:
+        return
+    for q0 in (True, False):
+        t0, t1 = TokenInfo("T0", 6), TokenInfo("T1", 18)
+        pool = UniV3Pool(t0, t1, 0.05, t0 if q0 else t1)  # spacing 10
+        sp_ = pool.tick_spacing
+        lo, hi = ta - ta % sp_, tb - tb % sp_  # on the spacing grid already, so trimming the RANGE changes nothing
+        if lo >= hi:
+            continue
+        for where, tick_p in (("inside-offgrid", (lo + hi) // 2 // sp_ * sp_ + 3), ("just-above-lower", lo + 1), ("just-below-upper", hi - 1), ("below", lo - 13), ("above", hi + 17)):
+            sqp = ref_sqrt_ratio(tick_p)
+            for offer in ((Decimal(3), Decimal(3)), (Decimal(0), Decimal(3)), (Decimal(3), Decimal(0)), (Decimal(0), Decimal(0))):
+                for form in ("by_tick(tick=)", "by_price"):
+                    part.count("evaluations")
+                    part.count("argument_forms")
+                    broker = Broker()
+                    market = UniLpMarket(MarketInfo("m"), pool)
+                    broker.add_market(market)
+                    price = market.tick_to_price(tick_p)
+                    market.set_market_status(UniswapMarketStatus(None, pd.Series(
+                        data=[0, 0, 10**20, tick_p, price], index=["inAmount0", "inAmount1", "currentLiquidity", "closeTick", "price"])), None)
+                    broker.set_balance(t0, Decimal(10**6))
+                    broker.set_balance(t1, Decimal(10**3))
+                    amt0, amt1 = offer
+                    base_amt, quote_amt = (amt1, amt0) if q0 else (amt0, amt1)
+                    case = {"lower": ta, "upper": tb, "kind": "argument-forms", "q0": q0, "range": [lo, hi], "price_tick": tick_p, "offer_token0_token1": [str(amt0), str(amt1)],
+                            "form": form}
+                    try:
+                        if form == "by_tick(tick=)":
+                            e0, e1, eliq, _ = V3CoreLib.new_position(pool, amt0, amt1, lo, hi, sqp)
+                            pos, base_used, quote_used, liq = market.add_liquidity_by_tick(lo, hi, base_amt, quote_amt, tick=tick_p)
+                        else:
+                            # range given as prices: whichever ticks the market derives, the amounts must follow from THOSE ticks at the bar's price
+                            p_lo, p_hi = sorted((market.tick_to_price(lo), market.tick_to_price(hi)))
+                            pos, base_used, quote_used, liq = market.add_liquidity(p_lo, p_hi, base_max_amount=base_amt, quote_max_amount=quote_amt)
+                            if abs(pos.lower_tick - lo) > sp_ or abs(pos.upper_tick - hi) > sp_:
+                                part.violation("C07|market|price-range", "add_liquidity placed the range more than one spacing away from the given prices", case,
+                                               {"position": [pos.lower_tick, pos.upper_tick]})
+                                continue
+                            from demeter.uniswap.helper import base_unit_price_to_sqrt_price_x96
+                            sq_bar = base_unit_price_to_sqrt_price_x96(price, t0.decimal, t1.decimal, q0)
+                            e0, e1, eliq, _ = V3CoreLib.new_position(pool, amt0, amt1, pos.lower_tick, pos.upper_tick, sq_bar)
+                    except Exception as e:  # noqa: BLE001
+                        part.violation(f"C07|market|exception|{type(e).__name__}", f"deposit through {form} raised {type(e).__name__}: {e}", case)
+                        continue
+                    used0, used1 = (quote_used, base_used) if q0 else (base_used, quote_used)
+                    if used0 > amt0 or used1 > amt1:
+                        part.violation("C07|market|overspend|offer", "the deposit took more of a token than was offered (an offer of 0 is an offer)", case,
+                                       {"used": [str(used0), str(used1)], "liquidity": liq})
+                    elif (used0, used1, liq) != (e0, e1, eliq):
+                        part.violation(f"C07|market|argument-form|{form}", "the deposit differs from the position minted for the same range, offer and price", case,
+                                       {"used": [str(used0), str(used1), liq], "expected": [str(e0), str(e1), eliq]})
+
+
 def work(args):
     seed, pairs = args
     import demeter.uniswap  # sets the library's 35-digit context, as any user import does
@@ -262,6 +326,7 @@ def work(args):
                      "amounts": "9x9 incl. 0, 1 wei, sub-unit fractions, 1e12"}, every=7)
         check_pair(part, ta, tb)
         moving_bar_roundtrip(part, ta, tb)
+        argument_forms(part, ta, tb)
     return part.result()
 
 
@@ -297,6 +362,7 @@ def replay(run: Run, path):
     part = Part()
     check_pair(part, c["lower"], c["upper"])
     moving_bar_roundtrip(part, c["lower"], c["upper"])
+    argument_forms(part, c["lower"], c["upper"])
     hit = {s: v for s, v in part.violations.items() if s == data["signature"]}
     for sig, v in (hit or part.violations).items():
         print("reproduced:", sig, v[0], v[1], v[2])
